@@ -37,6 +37,7 @@ func c11Symbols() (syms []string) {
 		"example.org,~sub.example.org##.neg", "\texample.com##.tab-indented", "||example.org^$important ", "\ufeff||bom.test^", "\ufeff! comment after a byte-order mark",
 		// white space other than blank, tab, CR at the edges of a line; a CR that is not followed by LF
 		"||vt.test^\v", "\u00a0||nbsp.test^", "||nel.test^\u0085", "\r||cr-start.test^", "example.org##.ad\r.banner",
+		"/ad", "a.b", // the shortest lines that are rules
 	}
 	for _, n := range c11LongLens {
 		syms = append(syms, c11LongRule(n), c11LongComment(n))
